@@ -18,8 +18,10 @@ fn main() {
         "c10_decode" => profirust::fdl::__verif_native_telegram::c10_decode(&rest, seed),
         "c10_first_byte" => profirust::fdl::__verif_native_telegram::c10_first_byte(&rest, seed),
         "c09_roundtrip" => profirust::fdl::__verif_native_telegram::c09_roundtrip(&rest, seed),
+        "prims_bits" => profirust::fdl::__verif_native_token_ring::prims_bits(&rest, seed),
         "c02_las" => profirust::fdl::__verif_native_token_ring::c02_las(&rest, seed),
         "c03_wd" => profirust::fdl::__verif_native_parameters::c03_wd(&rest, seed),
+        "c08_user_diag" => profirust::dp::__verif_native_peripheral::c08_user_diag(&rest, seed),
         "c07_recover" => profirust::dp::__verif_native_peripheral::c07_recover(&rest, seed),
         "c17_iter" => profirust::dp::__verif_native_diagnostics::c17_iter(&rest, seed),
         "c16_chunks" => phy_oracles::c16_chunks(&rest, seed),
